@@ -221,34 +221,6 @@ theorem validate_pushAll (sat : Nat → Bytes → Bool) (cons : List (Bytes × N
       rfl
 
 
-/-! ### the names the nodes hold are the route's own names (under NoNameClash) -/
-
-/-- no registered pattern passing through `cur` names a parameter differently from `suf` at a position
-up to which the two agree in shape -/
-def NoNameClashAt (L : List Entry) (cur : Key) (suf : Pat) : Prop :=
-  ∀ e' ∈ L, ∀ suf', strip e'.pat cur = some suf' → ∀ (i : Nat) (n1 n2 : Bytes),
-    prefixAgree i suf' suf = true → suf'[i]? = some (PSeg.par n1) → suf[i]? = some (PSeg.par n2) → n1 = n2
-
-theorem NoNameClashAt.step {L : List Entry} {cur : Key} {a : PSeg} {as : Pat} {e : ESeg}
-    (h : NoNameClashAt L cur (a :: as)) (he : ekey a = some e) : NoNameClashAt L (cur ++ [e]) as := by
-  intro e' he' suf' hs i n1 n2 hpre h1 h2
-  rw [strip_snoc] at hs
-  cases hsc : strip e'.pat cur with
-  | none => simp [hsc] at hs
-  | some sufc =>
-    rw [hsc] at hs
-    cases sufc with
-    | nil => simp [stepSuf] at hs
-    | cons seg' tail' =>
-      simp only [Option.bind_some, stepSuf] at hs
-      by_cases hek : ekey seg' = some e
-      · simp only [hek, if_true, Option.some.injEq] at hs
-        subst hs
-        have hshape : sameShape seg' a = true := sameShape_of_ekey hek he
-        exact h e' he' (seg' :: tail') hsc (i + 1) n1 n2 (by simp [prefixAgree, hshape, hpre])
-          (by simpa using h1) (by simpa using h2)
-      · simp [hek] at hs
-
 theorem firstSome_some {α β} (f : α → Option β) (l : List α) (v : β) (h : firstSome f l = some v) :
     ∃ a ∈ l, f a = some v := by
   induction l with
@@ -274,20 +246,74 @@ theorem joinSlash_eq (l : List Bytes) : Radix.joinSlash l = Match.joinSlash l :=
     | nil => rfl
     | cons b bs => simp only [Radix.joinSlash, Match.joinSlash, ih]
 
-theorem pushesFor_eq (L : List Entry) (hL : ∀ e ∈ L, e.ok) (trail : Bool) (segs : List Bytes) :
-    ∀ (cur : Key) (suf : Pat) (b : List (Bytes × Bytes)), (∃ m ∈ L, strip m.pat cur = some suf) →
-      matchPat trail suf segs = some b → NoNameClashAt L cur suf →
-      pushesFor (nodesOf L) trail cur suf segs = b := by
+/-! ### the captured values are positional, the names are the matched route's own (since the K01a repair) -/
+
+theorem pushAllT_gen (s : List (Bytes × Bytes)) (o : SMap) (ov ps : List (Bytes × Bytes)) :
+    pushAllT (⟨s, o⟩, ov) ps = (⟨s ++ ps.take (8 - s.length), o⟩, ov ++ ps.drop (8 - s.length)) := by
+  induction ps generalizing s ov with
+  | nil => simp [pushAllT]
+  | cons a rest ih =>
+    have hstep : pushAllT (⟨s, o⟩, ov) (a :: rest) = pushAllT (pushT (⟨s, o⟩, ov) a.1 a.2) rest := by simp [pushAllT]
+    rw [hstep]
+    unfold pushT
+    by_cases hl : s.length < 8
+    · simp only [hl, if_true]
+      rw [ih]
+      have h1 : 8 - s.length = (8 - (s ++ [(a.1, a.2)]).length) + 1 := by simp; omega
+      rw [h1]
+      simp
+    · simp only [hl, if_false]
+      rw [ih]
+      have h1 : 8 - s.length = 0 := by omega
+      simp [h1]
+
+theorem renameSlots_zip (names : List Bytes) (ps : List (Bytes × Bytes)) (h : names.length = ps.length) :
+    renameSlots names ps = names.zip (ps.map (·.2)) := by
+  induction names generalizing ps with
+  | nil =>
+    cases ps with
+    | nil => rfl
+    | cons a rest => simp at h
+  | cons n ns ih =>
+    cases ps with
+    | nil => simp at h
+    | cons a rest =>
+      obtain ⟨k, v⟩ := a
+      simp only [List.length_cons, Nat.add_right_cancel_iff] at h
+      simp [renameSlots, ih rest h]
+
+theorem take_zip' {α β} (a : List α) (b : List β) (n : Nat) : (a.zip b).take n = (a.take n).zip (b.take n) := by
+  unfold List.zip; exact List.take_zipWith
+
+theorem drop_zip' {α β} (a : List α) (b : List β) (n : Nat) : (a.zip b).drop n = (a.drop n).zip (b.drop n) := by
+  unfold List.zip; exact List.drop_zipWith
+
+/-- **the K01a repair**: after `bindParamNames` the context is the one obtained by writing the captured
+values under the leaf's own names -/
+theorem bound_fresh (lf : Leaf) (ps : List (Bytes × Bytes)) (h : lf.names.length = ps.length) :
+    boundCtx false lf (pushAllT (Ctx.fresh, []) ps) = pushAll Ctx.fresh (lf.names.zip (ps.map (·.2))) := by
+  have hT := pushAllT_gen [] [] [] ps
+  simp only [List.length_nil, Nat.sub_zero, List.nil_append] at hT
+  have hfr : (Ctx.fresh, ([] : List (Bytes × Bytes))) = ((⟨[], []⟩ : Ctx), []) := rfl
+  rw [hfr, hT, pushAll_fresh]
+  simp only [boundCtx, Bool.false_eq_true, if_false, bindNames]
+  have h8 : (lf.names.take 8).length = (ps.take 8).length := by simp [h]
+  rw [renameSlots_zip _ _ h8]
+  simp only [take_zip', drop_zip', List.map_take, List.map_drop, SMap.ofList]
+
+theorem pushesFor_vals (ns : Nodes) (trail : Bool) (segs : List Bytes) :
+    ∀ (cur : Key) (suf : Pat) (b : List (Bytes × Bytes)), matchPat trail suf segs = some b →
+      (pushesFor ns trail cur suf segs).map (·.2) = b.map (·.2) := by
   induction segs with
   | nil =>
-    intro cur suf b _ hm _
+    intro cur suf b hm
     have h := matchPat_nil_segs trail suf (by rw [hm]; rfl)
     obtain ⟨rfl, rfl⟩ := h
     simp only [matchPat, Bool.false_eq_true, if_false, Option.some.injEq] at hm
     subst hm
     simp [pushesFor]
   | cons x rest ih =>
-    intro cur suf b ⟨m, hm, hms⟩ hmatch hnc
+    intro cur suf b hmatch
     cases suf with
     | nil => simp [matchPat] at hmatch
     | cons a as =>
@@ -298,10 +324,8 @@ theorem pushesFor_eq (L : List Entry) (hL : ∀ e ∈ L, e.ok) (trail : Bool) (s
         subst hsx
         have hm' : matchPat trail as rest = some b := by
           cases as <;> simpa [matchPat] using hmatch
-        have hstrip : strip m.pat (cur ++ [ESeg.s s]) = some as := by
-          rw [strip_snoc, hms]; simp [stepSuf, ekey]
         simp only [pushesFor]
-        exact ih _ as b ⟨m, hm, hstrip⟩ hm' (hnc.step rfl)
+        exact ih _ as b hm'
       | par n =>
         have hm' : ∃ b', matchPat trail as rest = some b' ∧ b = (n, x) :: b' := by
           cases hmm : matchPat trail as rest with
@@ -310,31 +334,8 @@ theorem pushesFor_eq (L : List Entry) (hL : ∀ e ∈ L, e.ok) (trail : Bool) (s
             refine ⟨b', rfl, ?_⟩
             cases as <;> simp [matchPat, hmm] at hmatch <;> exact hmatch.symm
         obtain ⟨b', hmb, rfl⟩ := hm'
-        have hstrip : strip m.pat (cur ++ [ESeg.p]) = some as := by
-          rw [strip_snoc, hms]; simp [stepSuf, ekey]
-        have hname : (getK (nodesOf L) cur).pname.getD [] = n := by
-          rw [nodesOf_pname L hL]
-          have hsome := firstSome_isSome_of_mem (fun e => nameAtS e.pat cur) L m hm (by simp [nameAtS, hms])
-          cases hf : firstSome (fun e => nameAtS e.pat cur) L with
-          | none => rw [hf] at hsome; simp at hsome
-          | some n' =>
-            obtain ⟨e', he', hn'⟩ := firstSome_some _ _ _ hf
-            simp only [nameAtS] at hn'
-            cases hsc : strip e'.pat cur with
-            | none => simp [hsc] at hn'
-            | some sufc =>
-              cases sufc with
-              | nil => simp [hsc] at hn'
-              | cons seg' tail' =>
-                cases seg' with
-                | lit s' => simp [hsc] at hn'
-                | wild => simp [hsc] at hn'
-                | par n'' =>
-                  simp only [hsc, Option.some.injEq] at hn'
-                  subst hn'
-                  simpa using hnc e' he' _ hsc 0 n'' n (by simp [prefixAgree]) (by simp) (by simp)
-        simp only [pushesFor, hname]
-        rw [ih _ as b' ⟨m, hm, hstrip⟩ hmb (hnc.step rfl)]
+        simp only [pushesFor, List.map_cons]
+        rw [ih _ as b' hmb]
       | wild =>
         cases as with
         | cons c cs => simp [matchPat] at hmatch
@@ -343,5 +344,10 @@ theorem pushesFor_eq (L : List Entry) (hL : ∀ e ∈ L, e.ok) (trail : Bool) (s
           subst hmatch
           simp only [pushesFor, restOfPath, joinSlash_eq]
           rfl
+
+theorem zip_fst_snd {α β} (b : List (α × β)) : (b.map (·.1)).zip (b.map (·.2)) = b := by
+  induction b with
+  | nil => rfl
+  | cons a rest ih => simp [ih]
 
 end Rivaas.RadixL
